@@ -3,9 +3,11 @@ package zzh
 import (
 	"errors"
 	"fmt"
+	"regexp"
 	"strconv"
 	"strings"
 	"time"
+	"unicode"
 
 	"github.com/alowayed/go-univers/pkg/spec/vers"
 	"github.com/alowayed/go-univers/pkg/univers"
@@ -341,4 +343,52 @@ func VXStdSentinel(a string, flip bool) {
 	good = good && errors.Is(err, errSentA) == ((digit && !dash) || (!digit && dash))
 	good = good && errors.Is(err, errSentB) == (digit && dash)
 	vv.Assert(xor(good, flip), "selfcheck: sentinel error identity lost")
+}
+
+// The regexp intrinsic on symbolic bytes >= 0x80 (rune-wise matching) against byte-loop models.
+var (
+	rxNoSpace = regexp.MustCompile(`^\S+$`)
+	rxLower   = regexp.MustCompile(`^[a-z]+$`)
+	rxOneRune = regexp.MustCompile(`^.$`)
+	rxNotDig  = regexp.MustCompile(`^[^0-9]+$`)
+)
+
+func VXStdRegexp(a string, flip bool) {
+	noSpace, lower, notDig := len(a) > 0, len(a) > 0, len(a) > 0
+	for i := 0; i < len(a); i++ {
+		c := a[i]
+		if c == ' ' || c == '\t' || c == '\n' || c == '\f' || c == '\r' {
+			noSpace = false
+		}
+		if c < 'a' || c > 'z' {
+			lower = false
+		}
+		if c >= '0' && c <= '9' {
+			notDig = false
+		}
+	}
+	runes := 0
+	for i := 0; i < len(a); {
+		_, w := defDecode(a[i:])
+		i += w
+		runes++
+	}
+	good := rxNoSpace.MatchString(a) == noSpace
+	good = good && rxLower.MatchString(a) == lower
+	good = good && rxNotDig.MatchString(a) == notDig
+	good = good && rxOneRune.MatchString(a) == (runes == 1 && a != "\n")
+	vv.Assert(xor(good, flip), "selfcheck: regexp matching on non-ASCII bytes differs from the byte-loop models")
+}
+
+// strings.ToLower / ToUpper on bytes >= 0x80 against unicode.ToLower/ToUpper applied rune by rune
+// (the engine's native builds delta groups; the model re-encodes each rune).
+func VXStdCase(a string, flip bool) {
+	lo, up := "", ""
+	for i := 0; i < len(a); {
+		r, w := defDecode(a[i:])
+		i += w
+		lo += string(unicode.ToLower(rune(r)))
+		up += string(unicode.ToUpper(rune(r)))
+	}
+	vv.Assert(xor(strings.ToLower(a) == lo && strings.ToUpper(a) == up, flip), "selfcheck: ToLower/ToUpper on non-ASCII input differ from the rune-wise model")
 }
